@@ -66,7 +66,7 @@ func c14Conf(prefix, queue string, mt MemMapType) *Config {
 	c.ShareMemoryPathPrefix = prefix
 	c.QueuePath = queue
 	c.MemMapType = mt
-	c.InitializeTimeout = 3 * time.Second
+	c.InitializeTimeout = 8 * time.Second
 	c.ShareMemoryBufferCap = 1 << 20
 	c.QueueCap = 256
 	c.LogOutput = io.Discard
@@ -109,7 +109,7 @@ func c14Sessions(id int, tag string, conf *Config) (cs, ss *Session, err error) 
 	go func() {
 		sc := DefaultConfig()
 		sc.LogOutput = io.Discard
-		sc.InitializeTimeout = 3 * time.Second
+		sc.InitializeTimeout = 8 * time.Second
 		ss, serr = Server(srv, sc)
 		close(done)
 	}()
@@ -266,6 +266,39 @@ func c14RunTrace(id int, mt MemMapType) c14Case {
 		return c
 	}
 	seg("open 2 102", "open 2 1102")
+	// a sibling establishment on manager A whose handshake FAILS (memfd: the peer stalls after the version
+	// exchange; file: the peer is already gone): it must give back exactly the reference it took
+	{
+		cli, srv, err := c14Pair(id, "f")
+		if err != nil {
+			c.Kind, c.Err = "broken", "harness: "+err.Error()
+			return c
+		}
+		fc := c14Conf(pa, c14Prefix(id)+"_qf", mt)
+		fc.InitializeTimeout = 500 * time.Millisecond
+		if mt == MemMapTypeDevShmFile {
+			srv.Close()
+			time.Sleep(100 * time.Millisecond)
+		} else {
+			go func() {
+				buf := make([]byte, 64)
+				srv.SetReadDeadline(time.Now().Add(2 * time.Second))
+				srv.Read(buf)
+				h := header(make([]byte, headerSize))
+				h.encode(headerSize, maxSupportProtoVersion, typeExchangeProtoVersion)
+				srv.Write(h)
+				time.Sleep(1500 * time.Millisecond)
+				srv.Close()
+			}()
+		}
+		if fs, err := newSession(fc, cli, true); err == nil {
+			fs.Close()
+			c.Kind, c.Err = "broken", "harness: the sibling establishment did not fail"
+			return c
+		}
+		cli.Close()
+		seg("openfail 1")
+	}
 	// Close twice, concurrently: one procedure; the peer reacts to the closed connection
 	var wg sync.WaitGroup
 	for i := 0; i < 4; i++ {
@@ -312,7 +345,7 @@ func c14ChildServer() {
 	}
 	conf := DefaultConfig()
 	conf.LogOutput = io.Discard
-	conf.InitializeTimeout = 3 * time.Second
+	conf.InitializeTimeout = 8 * time.Second
 	s, err := Server(conn, conf)
 	if err != nil {
 		fmt.Println("ERR " + err.Error())
